@@ -64,6 +64,8 @@ class BracketStructure(Oracle):
     def after(self, world, ev, obs):
         if obs[0] == "suggest" and obs[1] == "none":
             return [("sync:suggest-none", "suggest returned None (request for work blocked) on an infinite space")]
+        if obs[0] == "suggest" and obs[1] == "resume" and obs[4] != "paused":
+            return [(f"sync:resume-not-paused:{obs[4]}", f"trial {obs[2]} resumed while {obs[4]}")]
         try:
             bm = world.s.bracket_manager
             brackets = bm._brackets
@@ -119,12 +121,23 @@ def build_dehb_world(cfg):
     sched, info = scheds.make("dehb", mode=cfg["mode"], seed=cfg["seed"], R=R, mra=cfg.get("use_mra", True),
                               rungs_first_bracket=list(rf), **({"num_brackets_per_iteration": cfg["nbi"]} if cfg.get("nbi") else {}))
     sign = 1.0 if cfg["mode"] == "min" else -1.0
-    spec = dict(W=cfg["W"], T=cfg["T"], R=R, table=table(cfg["T"], R, sign), brackets=0, max_resource_attr=info["mra"],
-                fail_budget=cfg.get("F", 0), id0=cfg.get("id0", 0))
+    tab = table(cfg["T"], R, sign)
+    if cfg["T"] > 8:
+        tab = [[v + sign * 0.0007 * t for v in row] for t, row in enumerate(tab)]   # no exact ties beyond 8 trials
+    spec = dict(W=cfg["W"], T=cfg["T"], R=R, table=tab, brackets=0, max_resource_attr=info["mra"],
+                fail_budget=cfg.get("F", 0), id0=cfg.get("id0", 0), flood=cfg.get("flood", False),
+                newest_first=cfg.get("newest_first", False))
     return World(sched, spec, [BracketStructure(rf, cfg.get("nbi") or len(rf), cfg["mode"])])
 
 
 def build_world(cfg):
+    w = _build_world(cfg)
+    for ev in cfg.get("prefix", []):      # exploration starts from the state a scripted history leads to
+        w.step(tuple(ev))
+    return w
+
+
+def _build_world(cfg):
     if cfg.get("dehb"):
         return build_dehb_world(cfg)
     s, br = make_scheduler(cfg)
@@ -145,7 +158,7 @@ def build_world(cfg):
 
 def ctx_of(cfg):
     if cfg.get("dehb"):
-        return f"dehb/{len(cfg['rungs_first'])}rungs/F{cfg.get('F', 0)}"
+        return f"dehb/{len(cfg['rungs_first'])}rungs/F{cfg.get('F', 0)}" + ("/from-11-workers-state" if cfg.get("prefix") else "")
     return f"shb/{cfg['sys']}"
 
 
@@ -154,8 +167,20 @@ def label(cfg):
 
 
 def task(cfg):
+    pre = []
+    if cfg.get("prefix"):
+        w = _build_world(cfg)
+        for i, ev in enumerate(cfg["prefix"]):
+            if tuple(ev) not in w.enabled():
+                raise RuntimeError(f"scripted prefix not executable at {i}: {ev} not in {w.enabled()}")
+            obs, vs = w.step(tuple(ev))
+            for k, what in vs:
+                pre.append(Violation(PROP, ctx_of(cfg) + "|" + k, what, {"cfg": dict(label(cfg), prefix=cfg["prefix"][: i + 1]), "history": []}))
+            if w.dead:
+                break
     cov, viols = explore(lambda: build_world(cfg), PROP, label(cfg), max_depth=cfg.get("D"),
                          max_states=cfg.get("max_states"), ctx=ctx_of(cfg))
+    viols = pre + viols
     if not cfg.get("dehb"):
         w = build_world(cfg)
         if w.dead:
@@ -199,6 +224,13 @@ def configs(tier, seed):
                 for F in ((0, 1) if tier == "quick" else (0, 1, 2)):
                     out.append(dict(dehb=True, rungs_first=rf, mode=mode, W=W, T=5 if tier == "quick" else 7, F=F, seed=seed,
                                     use_mra=True, nbi=None, max_states=3000 if tier == "quick" else 12000))
+    # DEHB, exploration from a scripted state: 11 workers ask for work before any result returns (bracket 0, bracket 1 and
+    # the first bracket of the next iteration, which has the offset of bracket 0 again, are open together), the later
+    # bracket completes its base rung and gets a job for its next rung before bracket 0's base rung completes
+    pre = [["S", None]] * 11 + [["R", t] for t in (10, 9, 8, 7)] + [["S", None]] + [["R", t] for t in (3, 2, 1, 0)]
+    for mode in ("min", "max"):
+        out.append(dict(dehb=True, rungs_first=[(4, 1), (3, 2)], mode=mode, W=12, T=16, F=0, seed=seed, use_mra=True, nbi=None,
+                        prefix=pre, max_states=300 if tier == "quick" else 3000))
     return out
 
 
